@@ -6,7 +6,7 @@ From Coq Require Import List String NArith ZArith Bool.
 From SV Require Import Bin.LE Bin.Struct Bin.StructProofs Bin.RLE Bin.RLEProofs Bin.FindInsert Bin.FindInsertProofs
   Fmt.BspFormatsSpec Fmt.BspFormatsProofs Fmt.BspVisRow Fmt.BspVisRowProofs Fmt.BspTexStrings Fmt.BspTexStringsProofs
   Fmt.BspRecords Fmt.BspRecordsProofs Fmt.VmfText Fmt.BspEntLump Fmt.BspEntLumpProofs Fmt.BspDedup Fmt.BspDedupProofs Fmt.BspFlagSplit Fmt.BspFlagSplitProofs
-  Fmt.BspOverlayRec Fmt.BspOverlayRecProofs.
+  Fmt.BspOverlayRec Fmt.BspOverlayRecProofs Fmt.BspWorklist Fmt.BspWorklistProofs Fmt.BspPhys Fmt.BspPhysProofs Bin.BspDeferred Bin.BspDeferredProofs Fmt.BspSpriteDict Fmt.BspSpriteDictProofs Fmt.BspSaveOrder Fmt.BspSaveOrderProofs.
 Import ListNotations.
 
 (** * struct: unpack inverts pack for every format and every fitting record *)
@@ -287,3 +287,129 @@ Theorem c11_overlay_block_roundtrip : forall reader head tail count wmax rmax ff
        exists bs, pack (h ++ f ++ t) (map field wh ++ map VInt faces ++ map field wt) = Some bs /\
                   List.length bs = calcsize r /\ unpack r bs = Some (overlay_values field rh rt faces count)).
 Proof. exact overlay_block_roundtrip. Qed.
+
+(** * Round 4: loops that serialise an index table while references are turned into indexes of that same table *)
+(** [_lmp_write_nodes]: [for node in nodes] over the LIVE list, the body appends the children it does not know yet.  When the
+    loop ends there is exactly one record per table entry (record [i] is the record of object [i]), no object has two
+    indexes, the listed roots kept their positions, every index stored in a record resolves - the way the reader resolves
+    it - to the object referred to, and the table holds exactly the objects reachable from the roots. *)
+Theorem c11_worklist_closure : forall kids roots fuel s s' out, wl_inv s -> items s = roots -> wl_live kids fuel s 0 [] = (s', out, true) ->
+  map fst out = items s' /\ NoDup (items s') /\ (exists ext, items s' = roots ++ ext) /\
+  (forall i o idx, nth_error out i = Some (o, idx) ->
+     nth_error (items s') i = Some o /\ Forall2 (fun k j => resolve out j = Some k) (kids o) idx) /\
+  (forall o, In o (items s') <-> reach kids roots o).
+Proof. exact wl_live_closure. Qed.
+(** ... and it does end: if the reachable objects are among finitely many ([U]), [S |U|] steps suffice.  ([find_or_insert]
+    over a list without repetitions satisfies [wl_inv].) *)
+Theorem c11_worklist_total : forall kids roots U, (forall o, reach kids roots o -> In o U) ->
+  forall s, wl_inv s -> items s = roots ->
+  exists s' out, wl_live kids (S (List.length U)) s 0 [] = (s', out, true) /\
+    map fst out = items s' /\ NoDup (items s') /\ (exists ext, items s' = roots ++ ext) /\
+    (forall i o idx, nth_error out i = Some (o, idx) ->
+       nth_error (items s') i = Some o /\ Forall2 (fun k j => resolve out j = Some k) (kids o) idx) /\
+    (forall o, In o (items s') <-> reach kids roots o).
+Proof. exact wl_live_total. Qed.
+Theorem c11_worklist_init : forall l, NoDup l -> wl_inv (fi_init l).
+Proof. exact fi_init_wl_inv. Qed.
+(** The snapshot loop ([for node in list(nodes)]): object 0 refers to the unlisted object 1; index 1 is stored, record 1 is
+    never written. *)
+Theorem c11_worklist_snapshot_refuted :
+  let '(s', out) := wl_snap kids01 [0%N] (fi_init [0%N]) [] in
+  items s' = [0%N; 1%N] /\ out = [(0%N, [1%nat])] /\ resolve out 1%nat = None /\
+  wl_live kids01 3%nat (fi_init [0%N]) 0 [] = (s', [(0%N, [1%nat]); (1%N, [])], true).
+Proof. exact wl_snapshot_refuted. Qed.
+(** Generic over the loop shapes read from the source: an entry that passes [wl_entry_ok] (nothing added after the loop;
+    live iteration, or a snapshot whose body adds nothing) denotes a loop after which every table entry has its record at
+    its own index and every reference turned into an index of this table resolves to the object referred to. *)
+Theorem c11_index_table_loop_closure : forall fn tbl k inside after kids fuel s s' out,
+  wl_entry_ok (fn, tbl, k, inside, after) = true -> wl_inv s -> wl_exec k inside kids fuel s = (s', out, true) ->
+  map fst out = items s' /\ NoDup (items s') /\ (exists ext, items s' = items s ++ ext) /\
+  forall i o idx, nth_error out i = Some (o, idx) ->
+    nth_error (items s') i = Some o /\ Forall2 (fun r j => resolve out j = Some r) (if inside then kids o else []) idx.
+Proof. exact wl_entry_closure. Qed.
+Theorem c11_index_table_loop_snapshot_refuted :
+  wl_entry_ok (""%string, ""%string, ISnapshot, true, false) = false /\
+  let '(s', out, _) := wl_exec ISnapshot true kids01 3%nat (fi_init [0%N]) in
+  (List.length out = 1 /\ List.length (items s') = 2)%nat.
+Proof. exact wl_entry_snapshot_with_adds_refuted. Qed.
+(** save() rebuilds the lumps in the order of LUMP_REBUILD_ORDER: every writer that appends to the list of another view
+    runs strictly before the writer of that view. *)
+Theorem c11_rebuild_order_sound : forall order edges, order_ok order edges = true ->
+  forall a b, In (a, b) edges -> exists i j, pos_of a order = Some i /\ pos_of b order = Some j /\ (i < j)%nat.
+Proof. exact order_ok_sound. Qed.
+
+(** * Round 4: the PHYSCOLLIDE lump of the brush models *)
+(** Generic over the configuration read from [_lmp_write_bmodels] / [_lmp_read_bmodels] (order of the four header values on
+    either side, sentinel written / compared with, order of the two variable-length sections, NUL terminator / stripping): if
+    it passes [phys_cfg_ok], EVERY list of physics blocks the format can hold (index other than the sentinel, numbers
+    within 32 bits, text not ending in NUL) is written and read back unchanged: model index, every solid byte for byte,
+    the keyvalues text. *)
+Theorem c11_physcollide_roundtrip : forall wo ro ws rs wseg rseg term strip, phys_cfg_ok (wo, ro, ws, rs, wseg, rseg, term, strip) = true ->
+  forall bl, forallb (block_wf ws) bl = true ->
+  exists bs, write_blocks wo ws bl = Some bs /\ read_blocks (S (List.length bl)) ro rs strip bs = Some bl.
+Proof. exact phys_roundtrip. Qed.
+(** Reader takes the number of solids where the writer put the text length: rejected by [phys_cfg_ok]; the block
+    (index 1, one solid of two bytes, text "A") is not read back.  The agreeing configuration passes and the block is well-formed. *)
+Theorem c11_physcollide_swapped_header_refuted :
+  phys_cfg_ok ([HIndex; HSize; HKvLen; HCount], [HIndex; HSize; HCount; HKvLen], (-1)%Z, (-1)%Z, [SSolids; SKvs], [SSolids; SKvs], true, true) = false /\
+  match write_blocks [HIndex; HSize; HKvLen; HCount] (-1)%Z [phys_block] with
+  | Some bs => read_blocks 2 [HIndex; HSize; HCount; HKvLen] (-1)%Z true bs <> Some [phys_block]
+  | None => False
+  end /\
+  phys_cfg_ok ([HIndex; HSize; HKvLen; HCount], [HIndex; HSize; HKvLen; HCount], (-1)%Z, (-1)%Z, [SSolids; SKvs], [SSolids; SKvs], true, true) = true /\
+  forallb (block_wf (-1)%Z) [phys_block] = true.
+Proof. exact phys_swapped_header_refuted. Qed.
+
+(** * Round 4: DeferredWrites (the offset table of the visibility lump, the lump directory of save()) *)
+(** Slots reserved while the file is written front to back, set later, filled in at the end: if no key is deferred twice,
+    every call succeeds ([drun] = the KeyError / size checks of [set_data]) and every deferred key is set at least once, the
+    resulting file is the file of a two-pass writer - the same calls with every slot holding the value set LAST for its
+    key; every other byte is where the sequential writes put it. *)
+Theorem c11_deferred_writes_two_pass : forall ops s, NoDup (defer_keys ops) -> drun dempty ops = Some s ->
+  (forall k, In k (defer_keys ops) -> last_set ops k <> None) ->
+  dwhole ops = Some (render (final_value ops) ops).
+Proof. exact dw_two_pass. Qed.
+(** A slot that never got its value is an error (ValueError), not a file with zeros in it. *)
+Theorem c11_deferred_unset_slot_is_error : dwhole [DWrite [1%N]; DDefer 0 4; DWrite [2%N]] = None.
+Proof. exact dw_unset_slot_is_error. Qed.
+
+(** * Round 4: the sprite dictionary of the detail-prop lump *)
+(** Generic over the slots read from both sides: if [sprite_dict_ok], every class that goes through the dictionary has the
+    same attribute component in every slot on both sides, one well-formed format with exactly that many values, and for
+    ANY assignment of values to the components that fits the format the entry is read back slot by slot. *)
+Theorem c11_sprite_dict_roundtrip : forall wf rf entries, sprite_dict_ok (wf, rf) entries = true ->
+  forall c w r, In (c, w, r) entries ->
+  w = r /\ exists f, parse_fmt wf = Some f /\ parse_fmt rf = Some f /\ nvalues f = List.length w /\
+  forall field : string -> value, fits f (map field w) = true ->
+    exists bs, pack f (map field w) = Some bs /\ unpack f bs = Some (map field r).
+Proof. exact sprite_dict_roundtrip. Qed.
+Theorem c11_sprite_dict_swapped_refuted :
+  sprite_dict_ok ("<8f", "<8f")%string [("S", ["a.0"; "a.1"; "b.0"; "b.1"], ["b.0"; "b.1"; "a.0"; "a.1"])]%string = false /\
+  sprite_dict_ok ("<4f", "<4f")%string [("S", ["a.0"; "a.1"; "b.0"; "b.1"], ["a.0"; "a.1"; "b.0"; "b.1"])]%string = true.
+Proof. exact sprite_dict_swapped_refuted. Qed.
+
+(** * Round 4: references across lumps - the whole save() pass *)
+(** save() as a sequence of work-list writers over one table per lump ([msave]).  If every reference goes to the writer's
+    own lump or to a lump rebuilt later ([forward]), then after all writers ran: the lists only grew, lists of lumps outside
+    the order are untouched, and for every lump of the order every list entry has exactly one record at its own index and
+    every index stored in a record resolves - in the FINAL list of its target lump - to the object referred to. *)
+Theorem c11_save_closure : forall refs fuel order T R T' R', NoDup order -> forward refs order -> tinv T ->
+  msave refs fuel order T R = (T', R', true) ->
+  tinv T' /\ text T T' /\ (forall M, ~ In M order -> T' M = T M /\ R' M = R M) /\
+  forall L, In L order -> map fst (R' L) = items (T' L) /\ Forall (rec_ok refs L T') (R' L).
+Proof. exact msave_closure. Qed.
+(** Composed with the objects read from the source: LUMP_REBUILD_ORDER and the (writer, owner) append edges pass [order_ok];
+    then for ANY reference structure that stays within those edges (lumps identified with their positions in the order) and
+    any initial lists the closure statement holds for every lump. *)
+Theorem c11_save_cross_reference_closure : forall refs order edges fuel T R T' R',
+  order_ok order edges = true -> respects refs order edges -> tinv T ->
+  msave refs fuel (seq 0 (List.length order)) T R = (T', R', true) ->
+  forall L, (L < List.length order)%nat -> map fst (R' L) = items (T' L) /\ Forall (rec_ok refs L T') (R' L).
+Proof. exact save_cross_reference_closure. Qed.
+(** A reference to a lump rebuilt EARLIER: lump 0 is written first (empty), then object 5 of lump 1 refers to the unlisted
+    object 9 of lump 0 - it is appended to list 0 and gets index 0, but list 0 has no record. *)
+Theorem c11_save_backward_reference_refuted :
+  let T0 : tables := fun L => if Nat.eqb L 1 then fi_init [5%N] else fi_init [] in
+  let '(T', R', ok) := msave refs_back 5 [0; 1]%nat T0 (fun _ => []) in
+  ok = true /\ items (T' 0%nat) = [9%N] /\ R' 0%nat = [] /\ R' 1%nat = [(5%N, [(0, 0)]%nat)].
+Proof. exact msave_backward_refuted. Qed.
